@@ -1,6 +1,6 @@
 """Property -> rules."""
 from .prog import Program
-from . import rules_cg, lalr, rules_dispatch, rules_wrap, rules_mem, rules_state, rules_dstr, rules_recurse, rules_misc, rules_critic, rules_esc, rules_wrapper
+from . import rules_cg, lalr, rules_dispatch, rules_wrap, rules_mem, rules_state, rules_dstr, rules_recurse, rules_misc, rules_critic, rules_esc, rules_wrapper, rules_anchor
 
 _progs = {}
 
@@ -107,7 +107,13 @@ def c11(chk, tier):
     rules_wrapper.r_metakey(P(), chk)
 
 
+def c10(chk, tier):
+    chk.explanation = "Static: R-ANCHOR anchor-family derivation agreement (reaching definitions), one label function, numbering stacks."
+    rules_anchor.r_anchor(P(), chk)
+
+
 PROPS = {
+    "C10": ("other", c10),
     "C11": ("other", c11),
     "C20": ("other", c20),
     "C16": ("other", c16),
